@@ -12,7 +12,7 @@ variable {w : WTypes} {ρ : Nat → Res} {oi ow : List Nat} {c : Nat}
 theorem Inv.insertInst {st : St} (h : Inv w ρ oi ow c st) (i id : Nat)
     (hv : RK w ρ oi ow c st (.instance i) (.instance id)) :
     Inv w ρ oi ow c (cacheInsert st (.any (.instance i)) (.type (.interface id))) := by
-  refine ⟨h.hc, ?_, ?_, ?_, ?_, ?_, ?_, h.rm⟩
+  refine ⟨h.hc, ?_, ?_, ?_, ?_, ?_, ?_, h.rm, h.inj⟩
   · intro d' v' hl
     simp only [cacheInsert, lookup_cons] at hl
     split at hl
@@ -47,7 +47,7 @@ theorem Inv.insertInst {st : St} (h : Inv w ρ oi ow c st) (i id : Nat)
 theorem Inv.insertComp {st : St} (h : Inv w ρ oi ow c st) (i id : Nat)
     (hv : RK w ρ oi ow c st (.component i) (.component id)) :
     Inv w ρ oi ow c (cacheInsert st (.any (.component i)) (.type (.world id))) := by
-  refine ⟨h.hc, ?_, ?_, ?_, ?_, ?_, ?_, h.rm⟩
+  refine ⟨h.hc, ?_, ?_, ?_, ?_, ?_, ?_, h.rm, h.inj⟩
   · intro d' v' hl
     simp only [cacheInsert, lookup_cons] at hl
     split at hl
@@ -82,7 +82,7 @@ theorem Inv.insertComp {st : St} (h : Inv w ρ oi ow c st) (i id : Nat)
 theorem Inv.insertMod {st : St} (h : Inv w ρ oi ow c st) (m id : Nat)
     (hv : ∃ mt, w.mods[m]? = some mt ∧ st.types.modules[id]? = some mt) :
     Inv w ρ oi ow c (cacheInsert st (.module m) (.type (.module id))) := by
-  refine ⟨h.hc, ?_, ?_, ?_, ?_, ?_, ?_, h.rm⟩
+  refine ⟨h.hc, ?_, ?_, ?_, ?_, ?_, ?_, h.rm, h.inj⟩
   · intro d' v' hl
     simp only [cacheInsert, lookup_cons] at hl
     split at hl
@@ -117,7 +117,7 @@ theorem Inv.insertMod {st : St} (h : Inv w ρ oi ow c st) (m id : Nat)
 theorem Inv.insertRes {st : St} (h : Inv w ρ oi ow c st) (r id : Nat)
     (hv : ∃ e, w.res[r]? = some e ∧ HL oi ow st.types id (ρ e.base)) :
     Inv w ρ oi ow c (cacheInsert st (.any (.res r)) (.resource id)) := by
-  refine ⟨h.hc, ?_, ?_, ?_, ?_, ?_, ?_, h.rm⟩
+  refine ⟨h.hc, ?_, ?_, ?_, ?_, ?_, ?_, h.rm, h.inj⟩
   · intro d' v' hl
     simp only [cacheInsert, lookup_cons] at hl
     split at hl
@@ -278,7 +278,26 @@ theorem resource_ok {st st' : St} {name : Str} {r id : Nat}
         refine ⟨⟨hfr1.ext, hfr1.size, hfr1.rmap⟩, fun hP hcons => ?_⟩
         have hinv1 : Inv w ρ oi ow c (Decode.addResource st x0).1 := hP.step hfr rfl rfl
         have hinv2 : Inv w ρ oi ow c st1 := by
-          refine ⟨hinv1.hc, hinv1.defined, hinv1.func, hinv1.inst, hinv1.comp, hinv1.mod, hinv1.res, ?_⟩
+          refine ⟨hinv1.hc, hinv1.defined, hinv1.func, hinv1.inst, hinv1.comp, hinv1.mod, hinv1.res, ?_, ?_⟩
+          rotate_left
+          · intro b b' s hb hb'
+            have hb1 : lookup ((e.base, st.types.resources.length) :: st.resourceMap) b = some s := hb
+            have hb2 : lookup ((e.base, st.types.resources.length) :: st.resourceMap) b' = some s := hb'
+            rw [lookup_cons] at hb1 hb2
+            have hrange : ∀ b0 s0, lookup st.resourceMap b0 = some s0 → s0 < st.types.resources.length := by
+              intro b0 s0 h0
+              obtain ⟨x, hx, _⟩ := hP.rm b0 s0 h0
+              exact getElem?_lt_of_some hx
+            split at hb1
+            · rename_i h1
+              cases hb1
+              split at hb2
+              · rename_i h2; exact h1.symm.trans h2
+              · have := hrange _ _ hb2; omega
+            · split at hb2
+              · cases hb2
+                have := hrange _ _ hb1; omega
+              · exact hP.inj b b' s hb1 hb2
           intro b s hb
           have hb' : lookup ((e.base, st.types.resources.length) :: st.resourceMap) b = some s := hb
           rw [lookup_cons] at hb'
